@@ -146,6 +146,30 @@ def run(tier):
                         nm = n['referencedDecl']['name']
                         if (nm, None) in glob or any(k[0] == nm and k[1] == fname for k in glob):
                             touched.append((fname, nm, n, ix))
+            # storage of the daemon itself that every interface thread would share: function-local statics in anything the
+            # start routine reaches, and file-scope variables of the daemon's own units that such code writes
+            for fname, (ix, f) in reach.items():
+                for n in walk(f):
+                    if n.get('kind') == 'VarDecl' and n.get('storageClass') == 'static':
+                        qt = n['type']['qualType']
+                        if 'const' in qt.split('[')[0].split('*')[-1].split():
+                            continue
+                        touched.append((fname, n.get('name'), n, ix))
+                    lhs = None
+                    if n.get('kind') in ('BinaryOperator', 'CompoundAssignOperator') and n.get('opcode', '').endswith('=') and n.get('opcode') not in ('==', '!=', '<=', '>='):
+                        lhs = n['inner'][0]
+                    elif n.get('kind') == 'UnaryOperator' and n.get('opcode') in ('++', '--'):
+                        lhs = n['inner'][0]
+                    while lhs is not None and lhs.get('kind') in ('ParenExpr', 'ArraySubscriptExpr', 'ImplicitCastExpr', 'MemberExpr') and lhs.get('inner'):
+                        if lhs.get('kind') == 'MemberExpr' and lhs.get('isArrow'):
+                            lhs = None       # a store through a pointer: the per-interface record / context
+                            break
+                        lhs = lhs['inner'][0]
+                    if lhs is not None and lhs.get('kind') == 'DeclRefExpr':
+                        rd = lhs.get('referencedDecl', {})
+                        dn = rd.get('name')
+                        if rd.get('kind') == 'VarDecl' and dn in getattr(ix, 'file_scope_vars', lambda: set())() and not (dn, None) in glob:
+                            touched.append((fname, dn, n, ix))
             analysed.append({'daemon': main, 'start_routine': sname, 'created_in_loop': in_loop, 'functions_reachable': len(reach), 'lock_calls': locked,
                              'shared_accesses': sorted(set((f, g) for f, g, _, _ in touched))})
             for fname, nm, n, ix in touched:
